@@ -39,7 +39,8 @@ CONSTANTS Workers,     \* worker thread ids available (|Workers| >= MaxThreads)
           MaxThreads,
           Items,       \* work item ids
           ContItems,   \* subset of Items submitted as continuations from work functions
-          LateItems    \* subset of Items submitted from completions
+          LateItems,   \* subset of Items submitted from completions
+          StartMayFail \* BOOLEAN: iv_thread_create may fail (the code ignores the error)
 
 Owner == "owner"
 NoItem == "none"
@@ -75,6 +76,14 @@ InIdle(w) == \E k \in 1..Len(idle) : idle[k] = w
 FreeWorker == CHOOSE w \in Workers : wst[w] = "none"
 CanStart == \E w \in Workers : wst[w] = "none"
 
+(* iv_work_start_thread fails (malloc or iv_thread_create): nothing changes, the
+   error is dropped.  With no worker at all the item then waits for the next
+   submission -- the code's behaviour, outside C12/C13 -- so the model lets a
+   creation fail only while another worker exists to pick the item up. *)
+StartFails ==
+  /\ StartMayFail /\ started >= 1
+  /\ UNCHANGED <<started, wst, wpc, kicked, evKick, evNeeded>>
+
 (* the body of iv_work_submit_pool under the lock; by = Owner or a worker *)
 SubmitEffect(i, by) ==
   /\ tail' = tail + 1 /\ items' = Append(items, i)
@@ -84,10 +93,11 @@ SubmitEffect(i, by) ==
           /\ UNCHANGED <<started, wst, wpc, evNeeded>>
      ELSE IF started < MaxThreads
           THEN IF by = Owner
-               THEN /\ started' = started + 1
-                    /\ wst' = [wst EXCEPT ![FreeWorker] = "starting"]
-                    /\ wpc' = [wpc EXCEPT ![FreeWorker] = "W0"]
-                    /\ UNCHANGED <<kicked, evKick, evNeeded>>
+               THEN \/ /\ started' = started + 1
+                       /\ wst' = [wst EXCEPT ![FreeWorker] = "starting"]
+                       /\ wpc' = [wpc EXCEPT ![FreeWorker] = "W0"]
+                       /\ UNCHANGED <<kicked, evKick, evNeeded>>
+                    \/ StartFails
                ELSE /\ evNeeded' = TRUE /\ UNCHANGED <<kicked, evKick, started, wst, wpc>>
           ELSE UNCHANGED <<kicked, evKick, started, wst, wpc, evNeeded>>
 
@@ -215,8 +225,9 @@ N1 ==        \* iv_work_thread_needed
   /\ opc = "idle" /\ evNeeded /\ lock = "free" /\ ~freed
   /\ evNeeded' = FALSE
   /\ IF idle = <<>> /\ started < MaxThreads /\ CanStart
-     THEN /\ started' = started + 1 /\ wst' = [wst EXCEPT ![FreeWorker] = "starting"]
-          /\ wpc' = [wpc EXCEPT ![FreeWorker] = "W0"]
+     THEN \/ /\ started' = started + 1 /\ wst' = [wst EXCEPT ![FreeWorker] = "starting"]
+             /\ wpc' = [wpc EXCEPT ![FreeWorker] = "W0"]
+          \/ (StartMayFail /\ started >= 1 /\ UNCHANGED <<started, wst, wpc>>)
      ELSE UNCHANGED <<started, wst, wpc>>
   /\ UNCHANGED <<lock, shutting, head, tail, items, done, idle, kicked, timer, wlast, wcur, evPool, evKick, evDead, joined,
                  opc, olocal, ocur, tosubmit, putReq, putDone, freed, workN, compN, running, workDone, hookStart, hookStop>>
